@@ -114,6 +114,8 @@ def install_probes():
                                                           list) else None
             base_s = reftok.digest(reftok.tree_struct(exprs)) if isinstance(
                 exprs, list) else None
+            if base is not None and len(base) > rec.max_tokens:
+                rec.max_tokens = len(base)
             origin = None
             keys = []
             for key in _simp_keys(simp):
@@ -280,6 +282,9 @@ def install_probes():
                     if exprs is None:
                         exprs = k.get('exprs', k.get('original'))
                     if isinstance(exprs, list):
+                        ntok = len(reftok.tree_tokens(exprs))
+                        if ntok > rec.max_tokens:
+                            rec.max_tokens = ntok
                         dup = ids_duplicate(exprs)
                         rec.rounds.append({
                             'kind': kind,
